@@ -238,6 +238,7 @@ pub fn build_all(dir: &Path, descs: &[RemoteDesc], baked: BTreeMap<usize, BTreeM
                     let dd = dd.clone();
                     let idx = *idx;
                     sc.spawn(move || {
+                        let _slot = crate::compile::compile_slot();
                         let exe = dd.join(if asan { "drv_asan" } else { "drv_ndebug" });
                         let mut c = Command::new("g++");
                         c.args(["-std=c++17", "-O1", "-w", "-I/repo/pdl-compiler/scripts", "-I"]).arg(&dd);
